@@ -20,5 +20,7 @@ C10_Accepted == O.outcome = "ok"
 C10_Rules    == O.outcome = "ok" => (O.got.rules = W.rules /\ O.ruleprec_ok)
 C10_Start    == O.outcome = "ok" => O.got.start = W.start
 C10_Tokens   == O.outcome = "ok" => (O.got.tokens = W.tokens /\ O.got.nttags = W.nttags)
+\* the generated Go and TypeScript files carry the user's text unchanged (checked for one rendering per specification)
+C10_Output   == \A k \in DOMAIN O.gen : LET x == O.gen[k] IN x.ok /\ x.prologue /\ x.union /\ x.epilogue /\ x.actions
 C10_Code     == O.outcome = "ok" => (O.got.prologue = W.prologue /\ O.got.union = W.union /\ O.got.epilogue = W.epilogue)
 =============================================================================
